@@ -71,7 +71,7 @@ theorem src_montgomery_form_forwarders (L : Nat) (a b m : List (BitVec 64)) :
 
 /-! ### the value theorems of T07.1 / T07.2 restated for the translated functions (same preconditions, `WF` is automatic) -/
 
-private theorem hl {a b : List (BitVec 64)} (h : a.length = b.length) :
+theorem nats_length_eq {a b : List (BitVec 64)} (h : a.length = b.length) :
     (GenChains.nats a).length = (GenChains.nats b).length := by
   rw [GenChains.nats_length, GenChains.nats_length, h]
 
@@ -83,7 +83,7 @@ theorem src_add_mod_exact (a b p : List (BitVec 64)) (hab : a.length = b.length)
     val (GenChains.nats (Gen.Modular.Uint.add_mod a.length a b p)) < val (GenChains.nats p) ∧
     (Gen.Modular.Uint.add_mod a.length a b p).length = a.length := by
   have ⟨e, l, _, n⟩ := P07.add_mod_spec (GenChains.nats_WF a) (GenChains.nats_WF b) (GenChains.nats_WF p)
-    (hl hab) (hl hap) hlta hltb
+    (nats_length_eq hab) (nats_length_eq hap) hlta hltb
   rw [GenModular.addMod_bridge a b p hab hap] at e l n
   exact ⟨e, l, by simpa [GenChains.nats] using n⟩
 
@@ -94,7 +94,7 @@ theorem src_double_mod_exact (a p : List (BitVec 64)) (hap : a.length = p.length
       (2 * val (GenChains.nats a)) % val (GenChains.nats p) ∧
     val (GenChains.nats (Gen.Modular.Uint.double_mod a.length a p)) < val (GenChains.nats p) ∧
     (Gen.Modular.Uint.double_mod a.length a p).length = a.length := by
-  have ⟨e, l, _, n⟩ := P07.double_mod_spec (GenChains.nats_WF a) (GenChains.nats_WF p) (hl hap) hlta
+  have ⟨e, l, _, n⟩ := P07.double_mod_spec (GenChains.nats_WF a) (GenChains.nats_WF p) (nats_length_eq hap) hlta
   rw [GenModular.doubleMod_bridge a p hap] at e l n
   exact ⟨e, l, by simpa [GenChains.nats] using n⟩
 
@@ -106,7 +106,7 @@ theorem src_sub_mod_exact (a b p : List (BitVec 64)) (hab : a.length = b.length)
     val (GenChains.nats (Gen.Modular.Uint.sub_mod a.length a b p)) < val (GenChains.nats p) ∧
     (Gen.Modular.Uint.sub_mod a.length a b p).length = a.length := by
   have ⟨e, l, _, n⟩ := P07.sub_mod_spec (GenChains.nats_WF a) (GenChains.nats_WF b) (GenChains.nats_WF p)
-    (hl hab) (hl hap) hlta hltb
+    (nats_length_eq hab) (nats_length_eq hap) hlta hltb
   rw [GenModular.subMod_bridge a b p hab hap] at e l n
   exact ⟨e, l, by simpa [GenChains.nats] using n⟩
 
@@ -121,7 +121,7 @@ theorem src_sub_mod_with_carry_exact (a b p : List (BitVec 64)) (carry : BitVec 
         % val (GenChains.nats p) ∧
     val (GenChains.nats (Gen.Modular.Uint.sub_mod_with_carry a.length a carry b p)) < val (GenChains.nats p) := by
   have h := P07.sub_mod_with_carry_spec (carry := carry.toNat) (GenChains.nats_WF a) (GenChains.nats_WF b)
-    (GenChains.nats_WF p) (hl hab) (hl hap) hc (by rw [GenChains.nats_length]; exact hlo)
+    (GenChains.nats_WF p) (nats_length_eq hab) (nats_length_eq hap) hc (by rw [GenChains.nats_length]; exact hlo)
     (by rw [GenChains.nats_length]; exact hhi)
   rw [GenModular.subModWithCarry_bridge a carry b p hab hap, GenChains.nats_length] at h
   exact h
@@ -134,7 +134,7 @@ theorem src_neg_mod_exact (a p : List (BitVec 64)) (hap : a.length = p.length)
     val (GenChains.nats (Gen.Modular.Uint.neg_mod a.length a p)) < val (GenChains.nats p) ∧
     (val (GenChains.nats a) = 0 → val (GenChains.nats (Gen.Modular.Uint.neg_mod a.length a p)) = 0) ∧
     (Gen.Modular.Uint.neg_mod a.length a p).length = a.length := by
-  have ⟨e, l, z, _, n⟩ := P07.neg_mod_spec (GenChains.nats_WF a) (GenChains.nats_WF p) (hl hap) hlta
+  have ⟨e, l, z, _, n⟩ := P07.neg_mod_spec (GenChains.nats_WF a) (GenChains.nats_WF p) (nats_length_eq hap) hlta
   rw [GenModular.negMod_bridge a p hap] at e l z n
   exact ⟨e, l, z, by simpa [GenChains.nats] using n⟩
 
@@ -146,7 +146,7 @@ theorem src_add_mod_special_exact (a b : List (BitVec 64)) (c : BitVec 64) (hab 
       (val (GenChains.nats a) + val (GenChains.nats b)) % (B ^ a.length - c.toNat) ∧
     val (GenChains.nats (Gen.Modular.Uint.add_mod_special a.length a b c)) < B ^ a.length - c.toNat ∧
     (Gen.Modular.Uint.add_mod_special a.length a b c).length = a.length := by
-  have ⟨e, l, _, n⟩ := P07.add_mod_special_spec (c := c.toNat) (GenChains.nats_WF a) (GenChains.nats_WF b) (hl hab)
+  have ⟨e, l, _, n⟩ := P07.add_mod_special_spec (c := c.toNat) (GenChains.nats_WF a) (GenChains.nats_WF b) (nats_length_eq hab)
     hc1 (toNat_lt_B c) (by rw [GenChains.nats_length]; exact hlta) (by rw [GenChains.nats_length]; exact hltb)
   rw [GenModular.addModSpecial_bridge a b c hab, GenChains.nats_length] at e l n
   exact ⟨e, l, by simpa [GenChains.nats] using n⟩
@@ -159,7 +159,7 @@ theorem src_sub_mod_special_exact (a b : List (BitVec 64)) (c : BitVec 64) (hab 
       (val (GenChains.nats a) + (B ^ a.length - c.toNat) - val (GenChains.nats b)) % (B ^ a.length - c.toNat) ∧
     val (GenChains.nats (Gen.Modular.Uint.sub_mod_special a.length a b c)) < B ^ a.length - c.toNat ∧
     (Gen.Modular.Uint.sub_mod_special a.length a b c).length = a.length := by
-  have ⟨e, l, _, n⟩ := P07.sub_mod_special_spec (c := c.toNat) (GenChains.nats_WF a) (GenChains.nats_WF b) (hl hab)
+  have ⟨e, l, _, n⟩ := P07.sub_mod_special_spec (c := c.toNat) (GenChains.nats_WF a) (GenChains.nats_WF b) (nats_length_eq hab)
     hc1 (toNat_lt_B c) (by rw [GenChains.nats_length]; exact hlta) (by rw [GenChains.nats_length]; exact hltb)
   rw [GenModular.subModSpecial_bridge a b c hab, GenChains.nats_length] at e l n
   exact ⟨e, l, by simpa [GenChains.nats] using n⟩
